@@ -71,8 +71,9 @@ def listeners():
     behav = st.lists(st.one_of(st.just("ok"), st.just("ok"), st.just("raise"), st.just("rm_self"),
                                st.integers(0, 4).map(lambda j: "rm:%d" % j),
                                st.integers(0, 4).map(lambda j: "add:%d" % j)), max_size=3)
-    return st.lists(st.builds(lambda n, b: {"name": n, "behav": b},
-                              st.sampled_from(NAMES[:4]), behav), min_size=1, max_size=5)
+    return st.lists(st.builds(lambda n, b, k: {"name": n, "behav": b, "kind": k},
+                              st.sampled_from(NAMES[:4]), behav, st.sampled_from(["func", "bound"])),
+                    min_size=1, max_size=5)
 
 
 def schedules():
@@ -94,6 +95,14 @@ def cases(draw):
 
 
 # --------------------------------------------------------------------------- driver
+
+class _Holder(object):
+    def __init__(self, fn):
+        self._fn = fn
+
+    def on_event(self, payload):
+        return self._fn(payload)
+
 
 class _Run(object):
     def __init__(self, case, with_events=True):
@@ -129,6 +138,9 @@ class _Run(object):
         self.calls = [0] * len(self.L)
         self.log = []                 # ("call", lid, payload) | ("add", j) | ("rm", j)
         self.cbs = [self._make_cb(i) for i in range(len(self.L))]
+        # listeners of kind "bound" are registered as *bound methods* (what TorState, onion.py etc. pass): every
+        # attribute access yields a new, equal-but-not-identical method object, for add and for remove alike
+        self.holders = [_Holder(cb) for cb in self.cbs]
         self.expected_setevents = []  # list of frozenset of names, one per SETEVENTS that must be issued
         self.api_errors = []
 
@@ -186,7 +198,7 @@ class _Run(object):
             self.expected_setevents.append(self._names())
         self.log.append(("add", j))
         try:
-            self.pipe.proto.add_event_listener(name, self.cbs[j])
+            self.pipe.proto.add_event_listener(name, self._listener(j))
         except Exception as e:
             self.api_errors.append(("add", j, repr(e)))
             if from_cb:
@@ -201,11 +213,16 @@ class _Run(object):
             self.expected_setevents.append(self._names())
         self.log.append(("rm", j))
         try:
-            self.pipe.proto.remove_event_listener(name, self.cbs[j])
+            self.pipe.proto.remove_event_listener(name, self._listener(j))
         except Exception as e:
             self.api_errors.append(("rm", j, repr(e)))
             if from_cb:
                 raise
+
+    def _listener(self, j):
+        if self.L[j].get("kind") == "bound":
+            return self.holders[j].on_event       # a fresh bound-method object on every call
+        return self.cbs[j]
 
     def _make_cb(self, i):
         def cb(payload):
@@ -471,6 +488,8 @@ def drive_events(case):
         res.label("event-with-nothing-after-name")
     if any("raise" in l["behav"] for l in case["listeners"]):
         res.label("raising-listener")
+    if any(l.get("kind") == "bound" for l in case["listeners"]):
+        res.label("bound-method-listener")
     return res
 
 
